@@ -60,6 +60,26 @@ fn frame_of<R: scylla_cql::frame::request::SerializableRequest>(r: &R, tracing: 
     }
 }
 
+fn coltype_by_name(name: &str) -> Option<ColumnType<'static>> {
+    use scylla_cql_core::frame::response::result::{CollectionType, UserDefinedType};
+    let int = || ColumnType::Native(NativeType::Int);
+    Some(match name {
+        "Collection" => ColumnType::Collection { frozen: false, typ: CollectionType::List(Box::new(int())) },
+        "Vector" => ColumnType::Vector { typ: Box::new(int()), dimensions: 2 },
+        "Tuple" => ColumnType::Tuple(vec![int()]),
+        "UserDefinedType" => ColumnType::UserDefinedType { frozen: false, definition: std::sync::Arc::new(UserDefinedType {
+            name: "t".into(), keyspace: "k".into(), field_types: vec![(Cow::Borrowed("a"), int())] }) },
+        n => ColumnType::Native(match n {
+            "Ascii" => NativeType::Ascii, "Boolean" => NativeType::Boolean, "Blob" => NativeType::Blob, "Counter" => NativeType::Counter,
+            "Date" => NativeType::Date, "Decimal" => NativeType::Decimal, "Double" => NativeType::Double, "Duration" => NativeType::Duration,
+            "Float" => NativeType::Float, "Int" => NativeType::Int, "BigInt" => NativeType::BigInt, "Text" => NativeType::Text,
+            "Timestamp" => NativeType::Timestamp, "Inet" => NativeType::Inet, "SmallInt" => NativeType::SmallInt, "TinyInt" => NativeType::TinyInt,
+            "Time" => NativeType::Time, "Timeuuid" => NativeType::Timeuuid, "Uuid" => NativeType::Uuid, "Varint" => NativeType::Varint,
+            _ => return None,
+        }),
+    })
+}
+
 fn main() {
     std::panic::set_hook(Box::new(|_| {}));
     for line in std::io::stdin().lock().lines() {
@@ -400,6 +420,23 @@ fn main() {
                     Err(_) => format!("ERR-CHANGED count {}->{} bytes {}->{}", before.0, after.0, hex(&before.1), hex(&after.1)),
                 }
             }
+            // bindrow <carrier: i8|i16|i32|i64|f32|f64|bool|Counter|CqlDate|CqlTime|CqlTimestamp|Uuid|CqlTimeuuid> <column type name as for emptyval>:
+            // bind one value of the carrier to the column through add_value: BOUND <cells> / REFUSED / REFUSED-BUT-CHANGED
+            "bindrow" => {
+                use scylla_cql_core::value::{Counter, CqlDate, CqlTime, CqlTimestamp, CqlTimeuuid};
+                let typ = match coltype_by_name(a[2]) { Some(t) => t, None => return "ERR unknown type".to_string() };
+                let mut sv = SerializedValues::new();
+                let r = match a[1] {
+                    "i8" => sv.add_value(&7i8, &typ), "i16" => sv.add_value(&7i16, &typ), "i32" => sv.add_value(&7i32, &typ), "i64" => sv.add_value(&7i64, &typ),
+                    "f32" => sv.add_value(&1.5f32, &typ), "f64" => sv.add_value(&1.5f64, &typ), "bool" => sv.add_value(&true, &typ),
+                    "Counter" => sv.add_value(&Counter(7), &typ), "CqlDate" => sv.add_value(&CqlDate(7), &typ), "CqlTime" => sv.add_value(&CqlTime(7), &typ),
+                    "CqlTimestamp" => sv.add_value(&CqlTimestamp(7), &typ), "Uuid" => sv.add_value(&uuid::Uuid::from_bytes([7; 16]), &typ),
+                    "CqlTimeuuid" => sv.add_value(&CqlTimeuuid::from_bytes([7; 16]), &typ),
+                    _ => return "ERR unknown carrier".to_string(),
+                };
+                let mut b = Vec::new(); sv.write_to_request(&mut b);
+                match r { Ok(()) => format!("BOUND {}", sv.element_count()), Err(_) if b == [0, 0] => "REFUSED".to_string(), Err(_) => "REFUSED-BUT-CHANGED".to_string() }
+            }
             // emptyde <cell hex|-|null>: read an int column cell as MaybeEmpty<i32> through the public API: NULL-ERR / EMPTY / VALUE <n> / ERR
             "emptyde" => {
                 use scylla_cql_core::deserialize::value::DeserializeValue;
@@ -419,22 +456,7 @@ fn main() {
             "emptyval" => {
                 use scylla_cql_core::frame::response::result::{CollectionType, UserDefinedType};
                 use scylla_cql_core::value::{CqlValue, MaybeEmpty};
-                let int = || ColumnType::Native(NativeType::Int);
-                let typ = match a[1] {
-                    "Collection" => ColumnType::Collection { frozen: false, typ: CollectionType::List(Box::new(int())) },
-                    "Vector" => ColumnType::Vector { typ: Box::new(int()), dimensions: 2 },
-                    "Tuple" => ColumnType::Tuple(vec![int()]),
-                    "UserDefinedType" => ColumnType::UserDefinedType { frozen: false, definition: std::sync::Arc::new(UserDefinedType {
-                        name: "t".into(), keyspace: "k".into(), field_types: vec![(Cow::Borrowed("a"), int())] }) },
-                    n => ColumnType::Native(match n {
-                        "Ascii" => NativeType::Ascii, "Boolean" => NativeType::Boolean, "Blob" => NativeType::Blob, "Counter" => NativeType::Counter,
-                        "Date" => NativeType::Date, "Decimal" => NativeType::Decimal, "Double" => NativeType::Double, "Duration" => NativeType::Duration,
-                        "Float" => NativeType::Float, "Int" => NativeType::Int, "BigInt" => NativeType::BigInt, "Text" => NativeType::Text,
-                        "Timestamp" => NativeType::Timestamp, "Inet" => NativeType::Inet, "SmallInt" => NativeType::SmallInt, "TinyInt" => NativeType::TinyInt,
-                        "Time" => NativeType::Time, "Timeuuid" => NativeType::Timeuuid, "Uuid" => NativeType::Uuid, "Varint" => NativeType::Varint,
-                        _ => return "ERR unknown type".to_string(),
-                    }),
-                };
+                let typ = match coltype_by_name(a[1]) { Some(t) => t, None => return "ERR unknown type".to_string() };
                 let verdict = |r: Result<(), scylla_cql_core::serialize::SerializationError>, sv: &SerializedValues| {
                     let mut b = Vec::new(); sv.write_to_request(&mut b);
                     match r { Ok(()) if b == [0, 1, 0, 0, 0, 0] => "ACCEPTED".to_string(), Ok(()) => format!("ACCEPTED-BUT-WROTE-{}", hex(&b)),
